@@ -156,7 +156,7 @@ class Ctx(object):
                 line += " no-failing-input-found"
             print(line)
             print("  failed: %s :: %s" % (name, _short(detail if detail is not None else witness, 300)))
-        self.violations.append(dict(name=name, key=key, replay=rel, detail=_short(detail, 300) if detail else None))
+        self.violations.append(dict(name=name, key=key, replay=rel, detail=_short(detail, 300) if detail else None, native=not no_input))
         sys.stdout.flush()
         return True
 
@@ -173,6 +173,9 @@ class Ctx(object):
 
     # ------------------------------------------------------------------ evidence
     def exit_code(self):
+        # a violation with a failing input replayed on the real code stands even if some other part of the checker broke
+        if any(v.get("native") for v in self.violations):
+            return 1
         if self.checker_failures:
             return 3
         if self.violations:
